@@ -45,8 +45,17 @@ def run(ctx):
             ctx.configs.append(lib["desc"])
             for alg in range(3):
                 jobs.append((exe, [2, alg, 3, 0], "%s-k%dd%dm%d" % ((be,) + tr), False))
+    # the families that draw randomness, with the system source not there at all (every request fails: ENOSYS as under a seccomp filter or an old kernel, EIO, EPERM):
+    # what decryption accepts, rejects and wipes does not depend on it
+    for be in (("asm", "c64", "c32", "dxor", "generic") if ctx.thorough else ("asm", "c32")):
+        lib = build.build_lib(be)
+        exe = build.build_prog("c02", ["harness/c02.c", "harness/cpp_shim.cpp", "harness/sysrand.c", "ref/ref.c"], lib)
+        for err in ((38, 5, 1) if ctx.thorough else (38,)):
+            for alg in range(3):
+                for fam in (2, 6, 4, 8):
+                    jobs.append((exe, [fam, alg, 3, 0], "%s-rng-down-%d" % (be, err), fam in (4, 8), {"VP_SYSRAND_DOWN": str(err)}))
     jobs.sort(key=lambda j: not j[3])
-    common.parallel(lambda j: common.run_harness(ctx, j[0], j[1], label=j[2]), jobs)
+    common.parallel(lambda j: common.run_harness(ctx, j[0], j[1], label=j[2], env=j[4] if len(j) > 4 else None), jobs)
     common.align_jobs(ctx, jobs, lambda j: j[2] in ("asm", "c64") and j[1][2] == 3 and j[1][0] < 5)
     ADW = ["aead-ad:0", "aead-ad:1", "aead-ad:2", "siv-ad:0", "siv-ad:1", "siv-ad:2", "isap-ad:0", "isap-ad:1", "isap-ad:2"]
     common.mid_lengths(ctx, ADW, ("asm", "c64", "c32", "dxor", "generic") if ctx.thorough else ("asm", "c32"))
